@@ -65,8 +65,10 @@ BinArith == \A ty \in BoxTypes, op \in {"add", "sub"} :
                Emit([op |-> "iv.binary", ty |-> ty, bop |-> op, a |-> a, b |-> b])
 
 \* --- rel family -----------------------------------------------------------
-Relative == Emit([op |-> "iv.relative_to", ty |-> "f64", a |-> a, b |-> b,
-                  grid |-> RelGrid, scale |-> RelScale])
+\* also with both intervals scaled by 2^-60 and 2^60 (no absolute thresholds: a tiny positive reference is not zero)
+Relative == /\ Emit([op |-> "iv.relative_to", ty |-> "f64", a |-> a, b |-> b, grid |-> RelGrid, scale |-> RelScale])
+            /\ Emit([op |-> "iv.relative_to", ty |-> "f64", a |-> a, b |-> b, grid |-> RelGrid, scale |-> RelScale, dexp |-> 60])
+            /\ Emit([op |-> "iv.relative_to", ty |-> "f64", a |-> a, b |-> b, grid |-> RelGrid, scale |-> RelScale, dexp |-> -60])
 
 Relative3 == Emit([op |-> "iv.relative_round", ty |-> "f64", a |-> a, b |-> b, scale |-> RelScale])
 
